@@ -4,6 +4,7 @@ package harness
 // Used by TestCore (properties C01 C02 C03 C06 C07 C08).
 
 import (
+	"errors"
 	"fmt"
 	"os"
 	"sort"
@@ -16,7 +17,9 @@ import (
 	codectypes "github.com/cosmos/cosmos-sdk/codec/types"
 	"github.com/cosmos/cosmos-sdk/crypto/keys/ed25519"
 	sdk "github.com/cosmos/cosmos-sdk/types"
+	sdkerrors "github.com/cosmos/cosmos-sdk/types/errors"
 	authtypes "github.com/cosmos/cosmos-sdk/x/auth/types"
+	distrtypes "github.com/cosmos/cosmos-sdk/x/distribution/types"
 	govtypes "github.com/cosmos/cosmos-sdk/x/gov/types"
 	transfertypes "github.com/cosmos/ibc-go/v8/modules/apps/transfer/types"
 	clienttypes "github.com/cosmos/ibc-go/v8/modules/core/02-client/types"
@@ -84,7 +87,16 @@ type coreH struct {
 	gov      string
 	// lastImport: what the last `reimport` op found ("" = nothing)
 	lastImport string
+	// blocked: module accounts the bank refuses as recipients (bank.BlockedAddr); token `m<i>`, index
+	// 900+i on the Lean side (Core.blockedAddr).  m0 = the distribution module account.
+	blocked []sdk.AccAddress
+	// blockedErr[i]: the bank's own refusal of blocked[i] (obtained from the bank at fixture start):
+	// the reference value the `blockedRecipient` result class is recognised by
+	blockedErr []error
 }
+
+// coreBlockedBase: index of the first blocked module account in the model's address space
+const coreBlockedBase = 900
 
 func coreActorName(i int) string {
 	if i < 0 {
@@ -96,6 +108,7 @@ func coreActorName(i int) string {
 func newCoreH(t *testing.T, p coreParams) *coreH {
 	h := &coreH{t: t, f: NewFix(t), p: p, actorIdx: map[string]int{}, raIdx: map[string]int{}, created: map[int]bool{}, fails: map[[2]uint64]bool{}}
 	h.gov = authtypes.NewModuleAddress(govtypes.ModuleName).String()
+	h.initBlocked()
 	type ak struct {
 		addr sdk.AccAddress
 		pk   *codectypes.Any
@@ -141,6 +154,40 @@ func newCoreH(t *testing.T, p coreParams) *coreH {
 	return h
 }
 
+// initBlocked names the blocked module accounts and takes the bank's refusal of each of them from the
+// bank itself (a transfer of one base unit out of the sequencer module account inside a discarded
+// cache context: the recipient check comes before anything else, nothing is written).
+func (h *coreH) initBlocked() {
+	app := h.f.App
+	h.blocked = []sdk.AccAddress{authtypes.NewModuleAddress(distrtypes.ModuleName)}
+	h.blockedErr = nil
+	for i, a := range h.blocked {
+		if !app.BankKeeper.BlockedAddr(a) {
+			h.t.Fatalf("m%d (%s) is not a blocked address of the bank", i, a)
+		}
+		cctx, _ := h.f.Ctx.CacheContext()
+		err := app.BankKeeper.SendCoinsFromModuleToAccount(cctx, seqtypes.ModuleName, a, sdk.NewCoins(sdk.NewCoin(coreDenom, math.OneInt())))
+		if err == nil || !errors.Is(err, sdkerrors.ErrUnauthorized) {
+			h.t.Fatalf("bank did not refuse the blocked recipient m%d with ErrUnauthorized: %v", i, err)
+		}
+		h.blockedErr = append(h.blockedErr, err)
+	}
+}
+
+// msgClass: result class of a message that may pay out of the module account: the bank's refusal of a
+// blocked recipient (the registered error value and the bank's own text for that recipient, both
+// taken from the reference error) is `blockedRecipient`, every other failure `err`.
+func (h *coreH) msgClass(err error) string {
+	if err != nil && !IsPanic(err) {
+		for _, ref := range h.blockedErr {
+			if errors.Is(err, sdkerrors.ErrUnauthorized) && strings.Contains(err.Error(), ref.Error()) {
+				return "blockedRecipient"
+			}
+		}
+	}
+	return okErr(err)
+}
+
 // installSeam wraps the production finalization step with the injected-failure oracle.
 func (h *coreH) installSeam() {
 	k := h.f.App.RollappKeeper
@@ -167,6 +214,11 @@ func (h *coreH) onApp(f *Fix) *coreH {
 }
 
 func (h *coreH) actor(tok string) (int, sdk.AccAddress) {
+	if strings.HasPrefix(tok, "m") { // blocked module account (only meaningful as a recipient)
+		if i, err := strconv.Atoi(tok[1:]); err == nil && i >= 0 && i < len(h.blocked) {
+			return coreBlockedBase + i, h.blocked[i]
+		}
+	}
 	i, _ := strconv.Atoi(strings.TrimPrefix(tok, "a"))
 	if i < 0 || i >= len(h.actors) {
 		return i, Actor(1000 + i) // unknown actor: a valid address that is nobody
@@ -340,7 +392,10 @@ func (h *coreH) exec(line string) string {
 		})
 		return okErr(err)
 	case "fund":
-		_, a := h.actor(f[1])
+		ai, a := h.actor(f[1])
+		if ai >= coreBlockedBase && ai < coreBlockedBase+len(h.blocked) {
+			return "bad-op" // the test's own funding goes through the bank too; m<i> is a rewardee token only
+		}
 		h.f.Fund(a, sdk.NewCoin(coreDenom, math.NewIntFromUint64(atou(m["amt"]))))
 		return "ok"
 	case "create_seq":
@@ -412,7 +467,7 @@ func (h *coreH) exec(line string) string {
 			msg.Rewardee = a.String()
 		}
 		_, err := h.f.Deliver(&msg)
-		return okErr(err)
+		return h.msgClass(err)
 	case "obsolete":
 		auth := h.gov
 		if m["auth"] != "gov" {
@@ -524,6 +579,7 @@ type coreSnap struct {
 	Nq     [][2]int64  // (time, actor)
 	Mod    math.Int
 	Bal    []math.Int
+	MBal   []math.Int // balances of the blocked module accounts m0.. (monitors only, not part of the observation)
 	Supply math.Int
 	Pk     []corePk // pending delayed packets of the rollapps
 }
@@ -652,6 +708,9 @@ func (h *coreH) snapshot() *coreSnap {
 	s.Mod = app.BankKeeper.GetBalance(ctx, authtypes.NewModuleAddress(seqtypes.ModuleName), coreDenom).Amount
 	for _, a := range h.actors {
 		s.Bal = append(s.Bal, app.BankKeeper.GetBalance(ctx, a, coreDenom).Amount)
+	}
+	for _, a := range h.blocked {
+		s.MBal = append(s.MBal, app.BankKeeper.GetBalance(ctx, a, coreDenom).Amount)
 	}
 	s.Supply = app.BankKeeper.GetSupply(ctx, coreDenom).Amount
 	for _, pk := range app.DelayedAckKeeper.ListRollappPackets(ctx, datypes.ByStatus(commontypes.Status_PENDING)) {
